@@ -310,7 +310,8 @@ StepAt(m) ==
          IF ~s.shutset \/ ("shutdown" \in Fixes /\ ~s.own) THEN Complete(m, "err:ValueError", "value")
          ELSE Park(m, "SockShut")
     [] pc = "SockShut" ->
-         IF ~s.fdopen THEN Complete(m, "err:OSError", "raw")
+         IF ~s.fdopen THEN (IF "shutdown" \in Fixes THEN Complete(m, "err:ValueError", "value")     \* repaired: EBADF is translated
+                            ELSE Complete(m, "err:OSError", "raw"))
          ELSE Complete([m EXCEPT !.s.shut = TRUE, !.s.io = "shut"], "ok", "none")
     [] pc = "Recv" ->
          LET m1 == IF s.kern = 1 THEN [m EXCEPT !.s.kern = 0, !.s.rcv2 = F2(s), !.s.io = "recv"]
@@ -417,10 +418,12 @@ NoUseAfterRelease(o, o2) == (o.pooled /\ o.csock) => o2.io = "none"
 ShutdownActs(o, o2) == o2.nshok > o.nshok => o2.io = "shut"
 NeverHangs(o) == \A t \in Threads : o.errk[t] # "hang"
 Completed(o, o2, t) == o2.nops[t] = o.nops[t] + 1
+\* nobody has called (or is inside) release_conn / drain_conn / close: the application itself has not given the body up
+NoDisposalYet(o) == o.ndisp = 0 /\ \A u \in Threads : o.op[u] \notin DispOps
 CutNeverComplete(o, o2) ==
   \A t \in Threads :
     (Completed(o, o2, t) /\ o2.errk[t] = "none" /\ Signals(o2.op[t], o2.res[t]) /\ o2.fr \in {"cl", "chunked"}
-       /\ o.nrerr = 0 /\ o.ndisp = 0) => o2.deliv = Total
+       /\ o.nrerr = 0 /\ NoDisposalYet(o)) => o2.deliv = Total
 \* OnlyUrllib3Errors
 ErrOk(o, t) == \/ o.errk[t] \in {"none", "urllib3"}
                \/ o.errk[t] = "value" /\ o.op[t] = "shutdown"
